@@ -1,6 +1,6 @@
 PROPS["C14"] = {
-    "runs": [{"cmd": "c14.instantiate", "quick": 400, "thorough": 8000, "thorough_seeds": 2},
-             {"cmd": "c14.tm", "quick": 200, "thorough": 4000, "thorough_seeds": 2, "oracle_only": True}],
+    "runs": [{"cmd": "c14.instantiate", "quick": 400, "thorough": 5000, "thorough_seeds": 2},
+             {"cmd": "c14.tm", "quick": 200, "thorough": 2500, "thorough_seeds": 2, "oracle_only": True}],
     "nontrivial": lambda c: c["input"].count("(") >= 20,
     "rule": "c14.instantiate: random templated models through the public API: 1-3 boolean parameters (some with defaults), 2-5 nonterminals with 0-2 parameters "
             "(declaration order not always sorted), rules with conditionals over !, &&, ||, ==, != (values true/false/other strings/empty), nested conditionals inside nested "
